@@ -13,6 +13,7 @@ Inductive bop := BAdd | BSub | BMul | BDiv | BMod | BAnd | CLt | CLe | CEq | CNe
 
 Inductive sexp :=
 | SInt (z : Z) | SBool (b : bool) | SNil
+| SStr (t : list N)                    (* a plain string literal *)
 | SVar (i : nat)                       (* the i-th declared top-level variable *)
 | SNeg (e : sexp) | SNot (e : sexp)
 | SBin (o : bop) (a b : sexp)
@@ -29,6 +30,7 @@ Definition op_text (o : bop) : list N :=
 Fixpoint embed (names : list (list N)) (e : sexp) : node :=
   match e with
   | SInt z => NInt z | SBool b => NBool b | SNil => NNil
+  | SStr t => NString t None
   | SVar i => NIdent (nth i names [])
   | SNeg a => NPrefix [45%N] (embed names a)
   | SNot a => NPrefix [33%N] (embed names a)
@@ -41,7 +43,7 @@ Fixpoint embed (names : list (list N)) (e : sexp) : node :=
 (* every variable mentioned is one of the first n declared *)
 Fixpoint wf (n : nat) (e : sexp) : bool :=
   match e with
-  | SInt _ | SBool _ | SNil => true
+  | SInt _ | SBool _ | SNil | SStr _ => true
   | SVar i => Nat.ltb i n
   | SNeg a | SNot a => wf n a
   | SBin _ a b | SLand a b | SLor a b => wf n a && wf n b
@@ -50,7 +52,7 @@ Fixpoint wf (n : nat) (e : sexp) : bool :=
 
 Fixpoint height (e : sexp) : nat :=
   match e with
-  | SInt _ | SBool _ | SNil | SVar _ => 1
+  | SInt _ | SBool _ | SNil | SStr _ | SVar _ => 1
   | SNeg a | SNot a => S (height a)
   | SBin _ a b | SLand a b | SLor a b => S (Nat.max (height a) (height b))
   | STern c t f => S (Nat.max (height c) (Nat.max (height t) (height f)))
@@ -59,7 +61,7 @@ Fixpoint height (e : sexp) : nat :=
 (* operand-stack slots the code of e needs above the current top *)
 Fixpoint need (e : sexp) : nat :=
   match e with
-  | SInt _ | SBool _ | SNil | SVar _ => 1
+  | SInt _ | SBool _ | SNil | SStr _ | SVar _ => 1
   | SNeg a | SNot a => need a
   | SBin _ a b => Nat.max (need a) (S (need b))
   | SLand a b | SLor a b => Nat.max (Nat.max (need a) 2) (S (need b))
@@ -82,6 +84,7 @@ Fixpoint cexp (base : nat) (e : sexp) : list N * list konst :=
   | SInt z => ([opLoadConst; N.of_nat base], [KInt z])
   | SBool b => ([if b then opTrue else opFalse], [])
   | SNil => ([opNil], [])
+  | SStr t => ([opLoadConst; N.of_nat base], [KStr t])
   | SVar i => ([opLoadGlobal; N.of_nat i], [])
   | SNeg a => let '(ca, ka) := cexp base a in (ca ++ [opUnaryNegative], ka)
   | SNot a => let '(ca, ka) := cexp base a in (ca ++ [opUnaryNot], ka)
@@ -107,12 +110,21 @@ Fixpoint cexp (base : nat) (e : sexp) : list N * list konst :=
   end%N.
 
 (* (2) the source-level value: scalars, or the class of the error raised *)
-Inductive sval := VNil | VBool (b : bool) | VInt (z : Z).
+Inductive sval := VNil | VBool (b : bool) | VInt (z : Z) | VStr (t : list N).
 Inductive serr := EType | EDiv0.
 Definition wrap64 (z : Z) : Z := ((z + 9223372036854775808) mod 18446744073709551616 - 9223372036854775808)%Z.
-Definition struthy (v : sval) : bool := match v with VNil => false | VBool b => b | VInt z => negb (Z.eqb z 0) end.
+Definition struthy (v : sval) : bool :=
+  match v with VNil => false | VBool b => b | VInt z => negb (Z.eqb z 0) | VStr t => match t with [] => false | _ => true end end.
+(* byte-wise lexicographic order of strings *)
+Fixpoint str_cmp (a b : list N) : comparison :=
+  match a, b with
+  | [], [] => Eq | [], _ => Lt | _, [] => Gt
+  | x :: a', y :: b' => match N.compare x y with Eq => str_cmp a' b' | c => c end
+  end.
 Definition sveq (a b : sval) : bool :=
-  match a, b with VNil, VNil => true | VBool x, VBool y => Bool.eqb x y | VInt x, VInt y => Z.eqb x y | _, _ => false end.
+  match a, b with
+  | VNil, VNil => true | VBool x, VBool y => Bool.eqb x y | VInt x, VInt y => Z.eqb x y
+  | VStr x, VStr y => beq x y | _, _ => false end.
 
 Definition cmp_res (o : bop) (c : comparison) : bool :=
   match o with
@@ -129,6 +141,7 @@ Definition sbin (o : bop) (a b : sval) : sval + serr :=
   | CLt | CLe | CGt | CGe =>
       match a, b with
       | VInt x, VInt y => inl (VBool (cmp_res o (x ?= y)%Z))
+      | VStr x, VStr y => inl (VBool (cmp_res o (str_cmp x y)))
       | VBool x, VBool y => inl (VBool (cmp_res o (match x, y with true, false => Gt | false, true => Lt | _, _ => Eq end)))
       | VNil, VNil => inl (VBool (cmp_res o Eq))
       | _, _ => inr EType
@@ -142,6 +155,7 @@ Definition sbin (o : bop) (a b : sval) : sval + serr :=
           | BMod => if Z.eqb y 0 then inr EDiv0 else inl (VInt (Z.rem x y))
           | _ => inl (VInt (Z.land x y))
           end
+      | VStr x, VStr y => match o with BAdd => inl (VStr (x ++ y)) | _ => inr EType end
       | _, _ => inr EType
       end
   end.
@@ -151,6 +165,7 @@ Definition sbin (o : bop) (a b : sval) : sval + serr :=
 Fixpoint sev (rho : list sval) (e : sexp) : sval + serr :=
   match e with
   | SInt z => inl (VInt z) | SBool b => inl (VBool b) | SNil => inl VNil
+  | SStr t => inl (VStr t)
   | SVar i => match nth_error rho i with Some v => inl v | None => inr EType end
   | SNeg a => match sev rho a with inl (VInt z) => inl (VInt (wrap64 (- z))) | inl _ => inr EType | inr x => inr x end
   | SNot a => match sev rho a with inl v => inl (VBool (negb (struthy v))) | inr x => inr x end
